@@ -234,6 +234,53 @@ func (g *Engine) registerIntrinsics() {
 		}
 		return e.mkStr("")
 	})
+	// vxLoopCut(typeName, method): cut the (single) loop of (*typeName).method with the harness hooks
+	// vxLoopBase<method>, vxLoopHavoc<method>, vxLoopStep<method>
+	vx("vxLoopCut", func(e *Exec, a []Value, pos token.Pos) Value {
+		tn, mn := e.argStr(a[0]), e.argStr(a[1])
+		tm := e.eng.pkg.Type(tn)
+		if tm == nil {
+			e.unsupported("vxLoopCut: no type %s", tn)
+		}
+		fn := e.eng.prog.LookupMethod(types.NewPointer(tm.Type()), e.eng.pkg.Pkg, mn)
+		if fn == nil || fn.Blocks == nil {
+			e.unsupported("vxLoopCut: no method %s.%s", tn, mn)
+		}
+		var header *ssa.BasicBlock
+		for _, b := range fn.Blocks {
+			for _, p := range b.Preds {
+				if b.Dominates(p) {
+					if header != nil && header != b {
+						e.unsupported("vxLoopCut: %s has more than one loop", fn)
+					}
+					header = b
+				}
+			}
+		}
+		if header == nil {
+			e.unsupported("vxLoopCut: %s has no loop (the loop's shape changed: the inductive check does not apply)", fn)
+		}
+		cut := &loopCut{header: header}
+		for _, in := range header.Instrs {
+			p, ok := in.(*ssa.Phi)
+			if !ok {
+				break
+			}
+			cut.phis = append(cut.phis, p)
+		}
+		cut.base, cut.havoc, cut.step = e.eng.pkg.Func("vxLoopBase"+mn), e.eng.pkg.Func("vxLoopHavoc"+mn), e.eng.pkg.Func("vxLoopStep"+mn)
+		if cut.base == nil || cut.havoc == nil || cut.step == nil {
+			e.unsupported("vxLoopCut: missing hooks for %s", mn)
+		}
+		if len(cut.base.Params) != 1+len(cut.phis) || len(cut.step.Params) != 1+len(cut.phis) {
+			e.unsupported("vxLoopCut: the loop of %s carries %d variables, the hooks expect %d (the loop's shape changed)", fn, len(cut.phis), len(cut.base.Params)-1)
+		}
+		if e.loopCuts == nil {
+			e.loopCuts = map[*ssa.Function]*loopCut{}
+		}
+		e.loopCuts[fn] = cut
+		return nil
+	})
 	vx("vxGuardsOff", func(e *Exec, a []Value, pos token.Pos) Value {
 		e.guards = nil
 		return nil
